@@ -41,6 +41,8 @@ pub fn mem(arg: &str) -> String {
         }
         res.ok(Headers::empty_nodate(), total.to_string())
     });
+    // request direction, body NOT read by the handler: discarded by the drop-drain
+    b.route(Method::Post, "/ignore", |_ctx, res| res.ok(Headers::empty_nodate(), "ignored"));
     // response direction: the body comes from a reader
     b.route(Method::Get, "/gen/:framing/:n", |ctx, res| {
         let n: u64 = ctx.params.get("n").and_then(|s| s.parse().ok()).unwrap_or(0);
@@ -68,11 +70,12 @@ pub fn mem(arg: &str) -> String {
     PEAK_BYTES.store(base, Ordering::SeqCst);
     let mut seen: u64 = 0;
     let mut ok = false;
-    if dir == "req" {
+    if dir == "req" || dir == "reqdrain" {
+        let path = if dir == "req" { "/sink" } else { "/ignore" };
         let head = if framing == "chunked" {
-            "POST /sink HTTP/1.1\r\nTransfer-Encoding: chunked\r\n\r\n".to_string()
+            format!("POST {} HTTP/1.1\r\nTransfer-Encoding: chunked\r\n\r\n", path)
         } else {
-            format!("POST /sink HTTP/1.1\r\nContent-Length: {}\r\n\r\n", n)
+            format!("POST {} HTTP/1.1\r\nContent-Length: {}\r\n\r\n", path, n)
         };
         client.write_all(head.as_bytes()).unwrap();
         let block = [b'x'; 16384];
@@ -90,43 +93,71 @@ pub fn mem(arg: &str) -> String {
         }
         if framing == "chunked" { let _ = client.write_all(b"0\r\n\r\n"); }
         // response: "HTTP/1.1 200 OK\r\ncontent-length: L\r\n\r\n<digits>"
-        let mut resp = Vec::new();
+        let mut resp = Vec::with_capacity(0);
         client.set_read_timeout(Some(std::time::Duration::from_secs(20))).ok();
         loop {
             match client.read(&mut tmp) {
                 Ok(0) | Err(_) => break,
-                Ok(k) => { resp.extend_from_slice(&tmp[..k]); if resp.windows(4).any(|w| w == b"\r\n\r\n") && resp.last().map(|c| c.is_ascii_digit()).unwrap_or(false) { break; } }
+                Ok(k) => { resp.extend_from_slice(&tmp[..k]); if resp.windows(4).any(|w| w == b"\r\n\r\n") && resp.last().map(|c| c.is_ascii_digit() || *c == b'd').unwrap_or(false) { break; } }
             }
         }
         let text = String::from_utf8_lossy(&resp);
-        seen = text.rsplit("\r\n\r\n").next().and_then(|s| s.trim().parse().ok()).unwrap_or(0);
-        ok = seen == n;
+        if dir == "req" {
+            seen = text.rsplit("\r\n\r\n").next().and_then(|s| s.trim().parse().ok()).unwrap_or(0);
+            ok = seen == n;
+        } else {
+            // the body was discarded; prove the connection is still usable (the drain consumed exactly the body)
+            ok = text.ends_with("ignored") && {
+                // (the handler answered before the body was discarded: give the drain time to finish, the chunked reader's
+                // read-ahead must not see the probe — known finding K07)
+                std::thread::sleep(std::time::Duration::from_millis(if framing == "chunked" { 150 } else { 0 }));
+                let _ = client.write_all(b"GET /gen/cl/1 HTTP/1.1\r\n\r\n");
+                let mut g = 0usize;
+                let mut small = [0u8; 256];
+                while g < 39 { match client.read(&mut small) { Ok(0) | Err(_) => break, Ok(k) => g += k } }
+                g >= 39
+            };
+            seen = n;
+        }
     } else {
         let req = format!("GET /gen/{}/{} HTTP/1.1\r\n\r\n", framing, n);
         client.write_all(req.as_bytes()).unwrap();
         client.set_read_timeout(Some(std::time::Duration::from_secs(20))).ok();
-        // count 'x' bytes after the head (chunk framing bytes are not 'x')
+        // count 'x' bytes after the head (chunk framing bytes are not 'x'); allocation-free on the client side
         let mut head_done = false;
-        let mut window: Vec<u8> = Vec::new();
+        let mut crlf_state = 0u8; // progress through "\r\n\r\n"
         let mut total_x: u64 = 0;
-        let deadline = std::time::Instant::now() + std::time::Duration::from_secs(60);
-        loop {
+        let mut tail = [0u8; 5];
+        let deadline = std::time::Instant::now() + std::time::Duration::from_secs(120);
+        'outer: loop {
             match client.read(&mut tmp) {
                 Ok(0) | Err(_) => break,
                 Ok(k) => {
-                    let mut chunk = &tmp[..k];
-                    if !head_done {
-                        window.extend_from_slice(chunk);
-                        if let Some(p) = window.windows(4).position(|w| w == b"\r\n\r\n") {
-                            head_done = true;
-                            let rest = window[p + 4..].to_vec();
-                            total_x += rest.iter().filter(|c| **c == b'x').count() as u64;
-                            window.clear();
+                    for &c in &tmp[..k] {
+                        if !head_done {
+                            crlf_state = match (crlf_state, c) {
+                                (0, b'\r') => 1,
+                                (1, b'\n') => 2,
+                                (2, b'\r') => 3,
+                                (3, b'\n') => 4,
+                                (_, b'\r') => 1,
+                                _ => 0,
+                            };
+                            if crlf_state == 4 {
+                                head_done = true;
+                            }
+                        } else {
+                            if c == b'x' {
+                                total_x += 1;
+                            }
+                            tail.copy_within(1..5, 0);
+                            tail[4] = c;
                         }
-                        chunk = &[];
                     }
-                    total_x += chunk.iter().filter(|c| **c == b'x').count() as u64;
-                    if total_x >= n && (framing == "cl" || n < 8192 && framing == "auto" || tmp[..k].ends_with(b"0\r\n\r\n") || n == 0) { break; }
+                    let done = total_x >= n && (framing == "cl" || (framing == "auto" && n < 8192) || &tail == b"0\r\n\r\n");
+                    if head_done && done {
+                        break 'outer;
+                    }
                 }
             }
             if std::time::Instant::now() > deadline { break; }
